@@ -4,6 +4,7 @@ import (
 	"fmt"
 	"runtime"
 	"runtime/debug"
+	"strings"
 
 	"voicheck/edt"
 	"voicheck/elin"
@@ -67,7 +68,7 @@ func init() {
 		erange.DeclareFieldRules(run, "RANGE-A", stageA)
 		portableWidthRule(c, stageA[0]) // the shared select/swap helpers keep all 64 bits on 32-bit targets
 		exp := expRule(run, len(stageA))
-		bi := run.Rule("DT-batchinvert", "BatchInvert is Montgomery's trick with zero skipping, uniform over all indices", 4*len(stageA))
+		bi := run.Rule("DT-batchinvert", "BatchInvert is Montgomery's trick with zero skipping, uniform over all indices", 3*len(stageA))
 		run.Rule("SIB-uniform", "limb-wise operations compute limb i from limbs i by one template for all i", 8*len(stageA))
 		if len(stageB) > 0 {
 			erange.DeclareStageBRules(run, "RANGE-B", stageB)
@@ -96,7 +97,24 @@ func init() {
 					run.Sample(map[string]any{"config": id, "MUL functions": mr.Functions, "MUL obligations": mr.Obligations})
 				}
 				// Montgomery's trick and limb uniformity
-				edt.Check(bi, &edt.Config{P: p, Mod: modFor(p)}, batchInvertSpec())
+				{
+					// with or without the (dead) pre-initialisation loop of the scratch slice
+					bcfg := &edt.Config{P: p, Mod: modFor(p)}
+					sp := batchInvertSpecFor(true)
+					hasInit := false
+					if fn := p.Func("internal/field", "BatchInvert"); fn != nil {
+						op := map[string]bool{}
+						for _, o := range sp.Opaque {
+							op[o] = true
+						}
+						for _, pa := range edt.Walk(&edt.Config{P: p, Mod: bcfg.Mod, Opaque: op, MaxPaths: 100, SymLoops: true}, fn) {
+							if strings.HasPrefix(pa.OutcomeString(), "next-iteration@L2(") {
+								hasInit = true
+							}
+						}
+					}
+					edt.Check(bi, bcfg, batchInvertSpecFor(hasInit))
+				}
 				checkExpAll(run, p, exp)
 				esib.CheckUniform(run, p, "SIB-uniform")
 				if id == stageA[0] {
